@@ -395,8 +395,8 @@ def nmne_class_attrs_at_import() -> Dict[str, Any]:
 class Shield:
     """Save / restore a channel of process-global state around the other instance's operations (attribution only)."""
 
-    def __init__(self, rng: bool, nmne: bool):
-        self.rng, self.nmne = rng, nmne
+    def __init__(self, rng: bool, nmne: bool, simout: bool = False):
+        self.rng, self.nmne, self.simout = rng, nmne, simout
 
     def __enter__(self):
         import random
@@ -404,7 +404,8 @@ class Shield:
         import numpy as np
         from primaite.game.agent.observations.nic_observations import NICObservation
         from primaite.simulator.network.hardware.base import NetworkInterface
-        self.saved = (random.getstate(), np.random.get_state(), NetworkInterface.nmne_config, NICObservation.capture_nmne)
+        from primaite.simulator import SIM_OUTPUT
+        self.saved = (random.getstate(), np.random.get_state(), NetworkInterface.nmne_config, NICObservation.capture_nmne, dict(vars(SIM_OUTPUT)))
         return self
 
     def __exit__(self, *exc):
@@ -419,6 +420,11 @@ class Shield:
         if self.nmne:
             NetworkInterface.nmne_config = self.saved[2]
             NICObservation.capture_nmne = self.saved[3]
+        if self.simout:
+            # the process-wide output settings (SIM_OUTPUT: save_* flags, log levels, paths) as they were before the other instance's operation
+            from primaite.simulator import SIM_OUTPUT
+            vars(SIM_OUTPUT).clear()
+            vars(SIM_OUTPUT).update(self.saved[4])
         return False
 
 
@@ -604,6 +610,9 @@ def gen_schedule(rng: Rng, n_a: int, space_a: int, space_b: int, b_first: bool, 
 # VIOLATION. The merged known_findings.json (not editable from here) still lists F-10 as open with channel "nmne-class-attrs"; the channel is
 # therefore reported under a name that stale entry does not match.
 NMNE_CHANNEL = "nmne-class-attrs-written-again(F-10-regression)"
+# the process-wide output settings (`primaite.simulator.SIM_OUTPUT`, written by every `PrimaiteIO(...)`, i.e. by every environment's
+# construction): classified sink-only, so a trajectory difference that disappears when they are shielded is a VIOLATION
+SIMOUT_CHANNEL = "sim-output-settings"
 
 
 def interleaving(cfg_a: Dict, cfg_b: Dict, schedule: List[Tuple], globals_fp: Optional[Callable[[], Dict[str, str]]] = None) -> dict:
@@ -622,24 +631,24 @@ def interleaving(cfg_a: Dict, cfg_b: Dict, schedule: List[Tuple], globals_fp: Op
     if diff is None:
         return res
     fixes = {}
-    for name, sh in (("global-rng", (True, False)), (NMNE_CHANNEL, (False, True)), ("both", (True, True))):
+    singles = (("global-rng", (True, False, False)), (NMNE_CHANNEL, (False, True, False)), (SIMOUT_CHANNEL, (False, False, True)))
+    for name, sh in singles + (("both", (True, True, True)),):
         t = run_schedule(cfg_a, cfg_b, schedule, shield=sh)
         fixes[name] = first_difference(solo, t)
     if fixes["both"] is not None:
         res["channels"] = ["unknown"]
         res["residual"] = fixes["both"]
         # which known channels contribute as well
-        if fixes["global-rng"] != diff:
-            res["channels"].append("global-rng")
-        if fixes[NMNE_CHANNEL] != diff:
-            res["channels"].append(NMNE_CHANNEL)
+        for name, _ in singles:
+            if fixes[name] != diff:
+                res["channels"].append(name)
     else:
-        if fixes["global-rng"] is None:
-            res["channels"] = ["global-rng"]
-        elif fixes[NMNE_CHANNEL] is None:
-            res["channels"] = [NMNE_CHANNEL]
+        alone = [name for name, _ in singles if fixes[name] is None]
+        if alone:
+            res["channels"] = alone[:1]
         else:
-            res["channels"] = ["global-rng", NMNE_CHANNEL]
+            contributing = [name for name, _ in singles if fixes[name] != diff]
+            res["channels"] = contributing or [name for name, _ in singles]
     res["fixes"] = {k: (v is None) for k, v in fixes.items()}
     return res
 
